@@ -320,6 +320,7 @@ class ClientEnd(object):
         self.world = world
         self.addr = addr
         self.sender_id = sender_id
+        self.read_bulk = (sum(map(ord, addr[0])) + addr[1] + world.rng_tag) % 2 == 0
         key = public_key if public_key is not None else (world.root_pub if pinned else None)
         self.udp = UdpClient(key)
         self.sock = MockSock(self)
@@ -377,7 +378,14 @@ class ClientEnd(object):
         except Exception as e:
             self.update_errors.append((self.world.clock.now, repr(e), self.last_origin))
             self.world.counters.inc("client_update_raised")
-        for seqnum, msg in self.udp.getMessages():
+        # the application reads what arrived: in bulk, or one message at a time (hasMessages()/getMessage())
+        if self.read_bulk:
+            got = self.udp.getMessages()
+        else:
+            got = []
+            while self.udp.hasMessages():
+                got.append(self.udp.getMessage())
+        for seqnum, msg in got:
             self.delivered.append((self.world.clock.now, int(seqnum), msg))
             self.world.on_deliver("client", self, seqnum, msg)
 
@@ -507,6 +515,7 @@ class World(object):
         from mpgameserver import ServerContext, EllipticCurvePrivateKey
         from mpgameserver.twisted import TwistedServer
         self.rng = rng
+        self.rng_tag = int(dt * 1000003) + (1 if jitter else 0)     # varies the clients' read API between worlds without consuming randomness
         self.dt = dt
         self.jitter = jitter
         self.clock = VClock()
